@@ -75,7 +75,8 @@ def catalogue(da, a, b, t, sq, v, ds, tmpdir):
         'put-notinplace': lambda: a.put({y: y0}, 5., inplace=False), 'put-cast': lambda: a.put({y: y0}, 'txt', cast=True, inplace=False),
         'add': lambda: a + b, 'radd': lambda: b * a, 'sub-self-T': lambda: a - t, 'add-scalar': lambda: a + 1, 'rdiv-scalar': lambda: 2 / a,
         'pow': lambda: a ** 2, 'np-scalar-left': lambda: np.float64(2) - a, 'add-ndarray': lambda: a + a.values,
-        'cmp-gt': lambda: a > 3, 'eq': lambda: a == a, 'ne': lambda: a != b, 'eq-other': lambda: a == b, 'neg': lambda: -a, 'le': lambda: a <= a.values,
+        'cmp-gt': lambda: a > 3, 'and': lambda: (a > 3) & (a < 2000), 'or': lambda: (a > 3) | (a < 2), 'pos': lambda: +a, 'invert': lambda: ~(a > 3),
+        'iter-values': lambda: [v_ for v_ in a], 'contains': lambda: 3.0 in a, 'float-0d': lambda: float(a.take(y0, axis=y).ix[0, 0]), 'eq': lambda: a == a, 'ne': lambda: a != b, 'eq-other': lambda: a == b, 'neg': lambda: -a, 'le': lambda: a <= a.values,
         'mean': lambda: a.mean(axis=y), 'sum-tuple': lambda: a.sum(axis=(y, z)), 'median': lambda: a.median(axis=0), 'std-skipna': lambda: a.std(axis=y, skipna=True),
         'max-none': lambda: a.max(), 'ptp': lambda: a.ptp(axis=1), 'all': lambda: (a > 0).all(axis=z), 'percentile': lambda: da.percentile(a, [50, 75], axis=y),
         'cumsum': lambda: a.cumsum(axis=1), 'cumprod-default': lambda: a.cumprod(), 'diff-keepaxis': lambda: a.diff(axis=y, keepaxis=True),
